@@ -210,13 +210,19 @@ def run(ctx):
     slack = None
     ok = False
     why = f"fixed-step update returns {T.show(v)[:200] if v else None}"
-    if v is not None and v[0] == "phi" and v[1][0] == "cmp" and len(v[1]) == 3:
-        c = v[1]
-        hi, lo = T.select(v, c, True), T.select(v, c, False)
+    def unclamp(t):
+        """(inner, clamped): strip an outer min(1, .)"""
+        if t is not None and t[0] == "f" and t[1] == "min2" and T.ONE in t[2] and len(t[2]) == 2:
+            return [a for a in t[2] if a != T.ONE][0], True
+        return t, False
+    v_in, clamped = unclamp(v)
+    if v_in is not None and v_in[0] == "phi" and v_in[1][0] == "cmp" and len(v_in[1]) == 3:
+        c = v_in[1]
+        hi, lo = T.select(v_in, c, True), T.select(v_in, c, False)
         if c[1] in (">=", ">") and hi == T.ONE and lo == want_v:
             slack = T.sub(c[2], T.sub(want_v, T.ONE))
-            ok = True
-    elif v is not None and v[0] == "f" and v[1] == "min2" and set(v[2]) == {T.ONE, want_v}:
+            ok = True  # snapped to 1 from 1 - slack on, beta + step below that (an outer min(1, .) changes nothing)
+    elif v_in == want_v and clamped:
         ok, slack = True, T.ZERO
     ctx.decide(ok, "C06.clamp", db.ident, loc_of(db), "fixed step: beta' == beta + step, set to 1.0 once it reaches 1.0",
                why + " ; expected beta + beta_step clamped to 1.0")
@@ -234,8 +240,18 @@ def run(ctx):
     ctx.count("functions_folded")
     v = ret[1][0] if ret[0] == "t" and len(ret[1]) == 2 else None
     ok = False
-    if v is not None and v[0] == "f" and v[1] == "min2" and T.ONE in v[2]:
-        inner = [a for a in v[2] if a != T.ONE][0]
+    v_in, clamped = unclamp(v)
+    # an additional snap to 1.0 (any condition) keeps beta' within (beta + min_step, 1]: what is snapped is still the floored value
+    snapped = False
+    if v_in is not None and v_in[0] == "phi" and T.ONE in (v_in[2], v_in[3]):
+        other = v_in[3] if v_in[2] == T.ONE else v_in[2]
+        cnd = v_in[1]
+        lf_ = T.linear_form(cnd[2]) if cnd[0] == "cmp" and len(cnd) == 3 and cnd[1] in (">=", ">") else None
+        # the snap condition is `value >= 1 - something`: monotone in the value, so everything at or above the threshold goes to 1
+        if lf_ is not None and lf_.get(other, 0) == 1 and v_in[2] == T.ONE:
+            v_in, snapped = other, True
+    if v_in is not None and (clamped or snapped):
+        inner = v_in
         if inner[0] == "f" and inner[1] == "max2":
             floor = [a for a in inner[2] if not (a[0] == "a" and "@L" in a[1])]
             star = [a for a in inner[2] if a[0] == "a" and "@L" in a[1]]
@@ -245,7 +261,7 @@ def run(ctx):
                 ms = T.atom("min_step")
                 leaves = list(T.phi_leaves(m_))
                 ok = all(l == ms or (T.is_poly(l) and any(b == ms for mono, _c in l[1] for b, _e in mono) and not any(b == beta and e > 0 and len(mono) == 1 for mono, _c in l[1] for b, e in mono)) for l in leaves)
-    ctx.decide(ok, "C06.floor", db.ident, loc_of(db), "adaptive: beta' == min(max(beta*, beta + min_step), 1.0)",
+    ctx.decide(ok, "C06.floor", db.ident, loc_of(db), "adaptive: beta' == max(beta*, beta + min_step), brought to at most 1.0 (clamp, or snap to 1.0 above a threshold)",
                f"adaptive update returns {T.show(v)[:240] if v else None}")
 
     # ------------------------------------------------ option prologue of sample()
@@ -431,6 +447,8 @@ MUTANTS += [
       "beta = min(max(beta_star, beta_prev + min_step), 1.0)\n            if self.adaptive_min_step and beta_star < 1.0:\n                min_step = min_step * (1 - beta_prev) / (1 - beta)", "C06.guard"),
 ]
 NEUTRALS = [
+    M("snap to 1.0 applied after both branches (still increasing, still ends at 1, floor still honoured)", _B,
+      "            if beta >= 1.0 - 0.5 * beta_step:\n                beta = 1.0\n", "", more=[("            beta = min(beta, 1.0)\n        return beta, min_step", "        if beta >= 1.0 - 0.5 * beta_step:\n            beta = 1.0\n        return min(beta, 1.0), min_step")]),
     M("fixed step snap with another slack", _B, "if beta >= 1.0 - 0.5 * beta_step:", "if beta + 0.25 * beta_step >= 1.0:", within="SMCSampler.determine_beta"),
     M("rescale guard nested", _B, "if self.adaptive_min_step and beta_star < 1.0:\n                min_step = min_step * (1 - beta_prev) / (1 - beta_star)", "if self.adaptive_min_step:\n                if beta_star != 1.0:\n                    min_step = min_step * (1 - beta_prev) / (1 - beta_star)"),
     M("exit clauses reordered", _B, "if beta == 1.0 or (\n                    max_n_steps is not None and iterations >= max_n_steps\n                ):", "if (max_n_steps is not None and iterations >= max_n_steps) or beta == 1.0:"),
